@@ -143,7 +143,7 @@ def fanout3_raw(rng):
 
 
 SCHEMAS = ["indep", "cascade", "cascade_rev", "shared", "casc_shared", "feedback", "feedback_free", "fanout", "casc_extra", "sibling", "fanout_coupled", "fanout3",
-           "tlp_degenerate", "t4_chain"]
+           "tlp_degenerate", "t4_chain", "twins"]
 
 
 def degenerate_rows(rng, ys, extra, with_point=False):
@@ -206,6 +206,26 @@ def pair_raw(rng, schema, dyadic=0.0):
         d2 = contract_raw(rng, ["y", "z"], ["p"], na=(1, 2), dyadic=dyadic, band=B)
     elif schema == "fanout3":
         d1, d2 = fanout3_raw(rng)
+    elif schema == "twins":
+        # two terms that are easily taken for one another sit on the two sides: a near twin (a coefficient larger by 10^-5 of itself), the same
+        # coefficients handed to other variables, or another first coefficient -- as assumptions of both over shared inputs, or as a
+        # guarantee of the producer next to an assumption of the consumer.  Different constraints; each must be honoured.
+        from props import c08
+
+        a_, b_ = rng.choice([1, 2, 3]), rng.choice([1, 2, 5])
+        k = rng.random()
+        if rng.random() < 0.5:
+            r = ({"x": a_, "w": -b_}, rng.choice([0, 1]))
+            base, twin = c08.near_twin(rng, r) if k < 0.4 else ((r, c08.permuted_twin(r)) if k < 0.7 and a_ != b_ else (r, c08.first_coefficient_twin(r)))
+            d1 = {"inv": ["x", "w"], "outv": ["y"], "a": [base], "g": [({"y": 1, "x": -1}, rng.randint(0, 2))]}
+            d2 = {"inv": ["x", "w", "y"], "outv": ["p"], "a": [twin], "g": [({"p": 1, "y": -1}, 0)]}
+        else:
+            r = ({"y": a_, "i": -b_}, rng.choice([0, 1]))
+            base, twin = c08.near_twin(rng, r) if k < 0.4 else ((r, c08.permuted_twin(r)) if k < 0.7 and a_ != b_ else (r, c08.first_coefficient_twin(r)))
+            d1 = {"inv": ["i"], "outv": ["y"], "a": [({"i": 1}, 5), ({"i": -1}, 5)], "g": [base]}
+            d2 = {"inv": ["y", "i"], "outv": ["p"], "a": [twin], "g": [({"p": 1, "y": -1}, 0)]}
+        if rng.random() < 0.5:
+            swap = True
     elif schema == "t4_chain":
         # the consumer's assumption on v can only be discharged through a producer row that LINKS v to a second output w (and inputs), and a
         # bound on w: tactic 4's recursion.  Orientations are random: some chains bound v from the right side, some from the wrong one
